@@ -34,11 +34,23 @@ class FrombufModel(Model):
         return ObjV("obj")
 
     def unpack(self, eng, st, args, node):
+        # struct.unpack for standard-size little/big-endian formats made of unsigned integer codes and pad bytes ('<I', '<I4xII', '>HQ', ...)
+        import re as _re
+
         fmt, b = args
-        if not (isinstance(fmt, StrV) and fmt.s == "<I"):
-            raise Unsupported("struct.unpack format other than '<I'")
-        eng.may_raise("error", st, b.n == 4, node)
-        return TupleV([IntV(le(b.at, z3.IntVal(0), 4))])
+        if not (isinstance(fmt, StrV) and _re.fullmatch(r"[<>]((\d*)[BHIQx])+", fmt.s)):
+            raise Unsupported("struct.unpack format outside [<>](count)(B|H|I|Q|x)*")
+        width = {"B": 1, "H": 2, "I": 4, "Q": 8, "x": 1}
+        pos, out = 0, []
+        for cnt, code in _re.findall(r"(\d*)([BHIQx])", fmt.s[1:]):
+            for _ in range(int(cnt or 1)):
+                if code != "x":
+                    w = width[code]
+                    idx = range(w) if fmt.s[0] == "<" else range(w - 1, -1, -1)
+                    out.append(IntV(sum((b.at(z3.IntVal(pos + j)) * (1 << (8 * k)) for k, j in enumerate(idx)), z3.IntVal(0))))
+                pos += width[code]
+        eng.may_raise("error", st, b.n == pos, node)
+        return TupleV(out)
 
 
 def fresh_bytes_(name):
